@@ -331,6 +331,10 @@ def complex_classes(repo: Repo) -> list[tuple[ClassInfo, Any, Any]]:
 
 
 def run(chk: Check, repo: Repo) -> None:
+    # the value-level half of this property (the payload a value encodes to decodes to the same value; a decoded value
+    # is accepted by the type's own encoder) is the codec round trip of C08 - its obligations are part of this check
+    from . import c08
+    c08.run(chk, repo)
     classes = complex_classes(repo)
     chk.floor("complex data classes", len(classes), 14)
     for c, a, f in sorted(classes, key=lambda t: t[0].name):
